@@ -33,7 +33,7 @@ Print Assumptions target_resolve_eq_partial.
    in-scope domain: every exports value, subpath and condition set *)
 Theorem exports_resolve_eq_partial : forall j sub conds,
   in_scope_exports j sub = true ->
-  outcome_of_model (exports_resolve slash_s sub (parse j) conds)
+  outcome_of_model (exports_resolve slash_s sub (parse_top j) conds)
   = coarse (node_exports_resolve j sub conds).
 Proof. exact exports_resolve_eq_partial_all. Qed.
 Print Assumptions exports_resolve_eq_partial.
@@ -41,7 +41,7 @@ Print Assumptions exports_resolve_eq_partial.
 (* the same for esmPackageImportsResolve and PACKAGE_IMPORTS_RESOLVE *)
 Theorem imports_resolve_eq_partial : forall j spec conds,
   in_scope_imports j spec = true ->
-  outcome_of_model (imports_resolve spec (parse j) conds)
+  outcome_of_model (imports_resolve spec (parse_top j) conds)
   = coarse (node_imports_resolve spec j conds).
 Proof. exact imports_resolve_eq_partial_all. Qed.
 Print Assumptions imports_resolve_eq_partial.
@@ -49,7 +49,9 @@ Print Assumptions imports_resolve_eq_partial.
 (* The domain of the two theorems above is EXACTLY: the documented exclusions
    (keys / specifiers ending in "/"), the URL fragment modelled by the
    specification (URL-plain characters, no empty segment), and the absence of
-   every recorded refuted shape D1..D10 (C11.Scope [shape_*]); nothing else is
+   every refuted shape that is still open: D1, D3, D5, D7, D8, D10 and the
+   top-level mixed keys of "imports" (C11.Scope [shape_*]); D2, D4 (nested) and D12
+   were repaired in /repo and their detectors are gone; nothing else is
    excluded (keys with several "*", any nesting, any condition set are in). *)
 Theorem in_scope_exports_split : forall j mk,
   in_scope_exports j mk = documented_ok j mk && fragment_ok j mk && no_refuted_shape false j mk.
@@ -74,14 +76,14 @@ Print Assumptions path_join_is_concatenation.
    equality is FALSE of the faithful model: *)
 Theorem exports_resolve_eq_refuted : exists j sub conds,
   documented_scope j sub = true /\
-  outcome_of_model (exports_resolve slash_s sub (parse j) conds)
+  outcome_of_model (exports_resolve slash_s sub (parse_top j) conds)
   <> coarse (node_exports_resolve j sub conds).
 Proof. exact exports_resolve_eq_refuted_all. Qed.
 Print Assumptions exports_resolve_eq_refuted.
 
 Theorem imports_resolve_eq_refuted : exists j sp conds,
   documented_scope j sp = true /\
-  outcome_of_model (imports_resolve sp (parse j) conds)
+  outcome_of_model (imports_resolve sp (parse_top j) conds)
   <> coarse (node_imports_resolve sp j conds).
 Proof. exact imports_resolve_eq_refuted_all. Qed.
 Print Assumptions imports_resolve_eq_refuted.
@@ -100,26 +102,27 @@ Theorem refuted_pattern_base_resolves_other_file :
 Proof. exact refuted_pattern_base_other_file. Qed.
 Print Assumptions refuted_pattern_base_resolves_other_file.
 
-Theorem refuted_invalid_segment_case_insensitive :
-  model_exports w_upper (s_ "./x") = OResolved (s_ "/lib/NODE_MODULES/x.js")
+(* D2 was repaired in /repo (e3ac7b5): the model follows the fixed
+   findInvalidSegment / findInvalidSubpathSegment and the former witnesses agree *)
+Theorem fixed_invalid_segment_case_insensitive :
+  model_exports w_upper (s_ "./x") = ORefused ENotExported
   /\ spec_exports w_upper (s_ "./x") = ORefused ENotExported.
-Proof. exact refuted_segment_case. Qed.
-Print Assumptions refuted_invalid_segment_case_insensitive.
+Proof. exact fixed_segment_case. Qed.
+Print Assumptions fixed_invalid_segment_case_insensitive.
 
-Theorem refuted_invalid_segment_percent_encoded :
-  model_exports w_pct (s_ "./x") = OResolved (s_ "/lib/%2e%2e/x.js")
-  /\ handle_post_conditions (exports_resolve slash_s (s_ "./x") (parse w_pct) cN) = (s_ "/lib/../x.js", SExact)
+Theorem fixed_invalid_segment_percent_encoded :
+  model_exports w_pct (s_ "./x") = ORefused ENotExported
   /\ spec_exports w_pct (s_ "./x") = ORefused ENotExported.
-Proof. exact refuted_segment_percent. Qed.
-Print Assumptions refuted_invalid_segment_percent_encoded.
+Proof. exact fixed_segment_percent. Qed.
+Print Assumptions fixed_invalid_segment_percent_encoded.
 
-Theorem refuted_invalid_segment_first_of_pattern_match :
-  model_exports w_star_all (s_ "./../secret.js") = OResolved (s_ "/lib/../secret.js")
+Theorem fixed_invalid_segment_first_of_pattern_match :
+  model_exports w_star_all (s_ "./../secret.js") = ORefused ENotExported
   /\ spec_exports w_star_all (s_ "./../secret.js") = ORefused ENotExported
-  /\ model_exports w_star_all (s_ "./node_modules/s.js") = OResolved (s_ "/lib/node_modules/s.js")
+  /\ model_exports w_star_all (s_ "./node_modules/s.js") = ORefused ENotExported
   /\ spec_exports w_star_all (s_ "./node_modules/s.js") = ORefused ENotExported.
-Proof. exact refuted_segment_first. Qed.
-Print Assumptions refuted_invalid_segment_first_of_pattern_match.
+Proof. exact fixed_segment_first. Qed.
+Print Assumptions fixed_invalid_segment_first_of_pattern_match.
 
 Theorem refuted_duplicate_json_key :
   model_exports w_dup (s_ "./a") = OResolved (s_ "/x.js")
@@ -127,11 +130,21 @@ Theorem refuted_duplicate_json_key :
 Proof. exact refuted_duplicate_key. Qed.
 Print Assumptions refuted_duplicate_json_key.
 
-Theorem refuted_nested_object_mixed_keys :
-  model_exports w_mixed (s_ "./a") = ORefused ENotExported
-  /\ spec_exports w_mixed (s_ "./a") = OResolved (s_ "/x.js").
-Proof. exact refuted_nested_mixed_keys. Qed.
-Print Assumptions refuted_nested_object_mixed_keys.
+(* D4 was repaired in /repo (4e82ea6) for nested objects: the former witness is now
+   inside the domain of exports_resolve_eq_partial and resolves like Node *)
+Theorem fixed_nested_object_mixed_keys :
+  model_exports w_mixed (s_ "./a") = OResolved (s_ "/x.js")
+  /\ spec_exports w_mixed (s_ "./a") = OResolved (s_ "/x.js")
+  /\ in_scope_exports w_mixed (s_ "./a") = true.
+Proof. exact fixed_nested_mixed_keys. Qed.
+Print Assumptions fixed_nested_object_mixed_keys.
+
+(* what is left of D4: the top-level object of "imports" *)
+Theorem refuted_imports_top_level_mixed_keys :
+  model_imports w_imports_mixed (s_ "#a") = ORefused ENotExported
+  /\ spec_imports w_imports_mixed (s_ "#a") = OResolved (s_ "/a.js").
+Proof. exact refuted_imports_top_mixed. Qed.
+Print Assumptions refuted_imports_top_level_mixed_keys.
 
 Theorem refuted_numeric_condition_key :
   model_exports w_index (s_ "./a") = OResolved (s_ "/y.js")
@@ -190,17 +203,22 @@ Theorem no_tsb_is_sufficient : forall fs, no_tsb fs = true -> no_ts_rewrite fs.
 Proof. exact no_tsb_sound. Qed.
 Print Assumptions no_tsb_is_sufficient.
 
-(* the equation for bare specifiers is FALSE of the faithful model without a
-   further hypothesis: Node's package scope stops at node_modules (finding D12,
-   replayed by the harness witness "package-scope-stops-at-node-modules") *)
-Theorem package_resolve_eq_refuted_scope_boundary :
+(* D12 was repaired in /repo (6e6e7fa): esbuild's nearest-package.json search is
+   now exactly Node's package scope lookup, for every file system and directory,
+   and the former witness agrees *)
+Theorem nearest_package_json_is_package_scope : forall fs fuel dir,
+  nearest_pkg fs fuel dir = package_scope fs fuel dir.
+Proof. exact nearest_is_scope. Qed.
+Print Assumptions nearest_package_json_is_package_scope.
+
+Theorem fixed_package_scope_boundary :
   wf_fsb w_scope_fs = true /\ no_tsb w_scope_fs = true
   /\ resolve (fun _ => false) w_scope_fs KRequire [] (pw_ ["node_modules"; "nopkg"]) (s_ "rootpkg")
-     = RFile (pw_ ["own.js"])
+     = RFile (pw_ ["node_modules"; "rootpkg"; "copy.js"])
   /\ require_resolve (fun _ => false) w_scope_fs [] (pw_ ["node_modules"; "nopkg"]) (s_ "rootpkg")
      = NFile (pw_ ["node_modules"; "rootpkg"; "copy.js"]).
-Proof. exact refuted_scope_boundary. Qed.
-Print Assumptions package_resolve_eq_refuted_scope_boundary.
+Proof. exact fixed_scope_boundary. Qed.
+Print Assumptions fixed_package_scope_boundary.
 
 (* ---- bare and "#" specifiers: loadNodeModules / loadPackageImports against
    LOAD_PACKAGE_SELF / LOAD_NODE_MODULES / LOAD_PACKAGE_IMPORTS ----
@@ -211,7 +229,6 @@ Print Assumptions package_resolve_eq_refuted_scope_boundary.
    Hypotheses, each excluding one recorded shape or a modelling limit:
      wf_fs, no_ts_rewrite          file system well formed / no TypeScript rewrite target;
      no_case_collision             D11 (the model looks names up exactly, esbuild case-insensitively);
-     nearest_crosses_nm = false    D12 (package scope beyond a node_modules directory);
      bare_ok                       valid package name (D13) and no "", ".", ".." segment in the specifier;
      pkgs_ok / pkgs_imports_ok     every exports / imports map in the tree is in the domain of the core
                                    theorems (documented exclusions, URL fragment, no refuted shape D1..D10);
@@ -241,7 +258,7 @@ Theorem package_resolve_eq_partial : forall builtin fs, wf_fs fs -> no_ts_rewrit
   no_case_collision fs = true ->
   forall user dir x,
   is_package_path x = true -> prefixb [ch_hash] x = false ->
-  bare_ok x = true -> pkgs_ok fs x -> nearest_crosses_nm fs (length dir) dir = false ->
+  bare_ok x = true -> pkgs_ok fs x ->
   agree (resolve builtin fs KRequire user dir x) (require_resolve builtin fs user dir x).
 Proof. exact (fun b fs Hw Ht _ => package_resolve_bare_all b fs Hw Ht). Qed.
 Print Assumptions package_resolve_eq_partial.
@@ -252,7 +269,6 @@ Theorem package_imports_resolve_eq_partial : forall builtin fs, wf_fs fs -> no_t
   is_package_path x = true -> prefixb [ch_hash] x = true ->
   pkgs_imports_ok fs x -> remap_ok builtin fs user x ->
   bare_ok x = true -> pkgs_ok fs x ->
-  nearest_crosses_nm fs (length dir) dir = false ->
   agree (resolve builtin fs KRequire user dir x) (require_resolve builtin fs user dir x).
 Proof. exact (fun b fs Hw Ht _ => package_resolve_imports_all b fs Hw Ht). Qed.
 Print Assumptions package_imports_resolve_eq_partial.
@@ -261,7 +277,6 @@ Print Assumptions package_imports_resolve_eq_partial.
    replayed by the harness witness "invalid-package-name-taken-as-self-reference") *)
 Theorem package_resolve_eq_refuted_nameless_self_reference :
   wf_fsb w_nameless_fs = true /\ no_tsb w_nameless_fs = true /\ no_case_collision w_nameless_fs = true
-  /\ nearest_crosses_nm w_nameless_fs 0 [] = false
   /\ bare_ok (s_ "@foo") = false
   /\ resolve (fun _ => false) w_nameless_fs KRequire [] [] (s_ "@foo") = RFail
   /\ require_resolve (fun _ => false) w_nameless_fs [] [] (s_ "@foo") = NFile (pw_ ["node_modules"; "@foo"; "index.js"]).
